@@ -86,9 +86,19 @@ def r2_innermost_wins(ctx, rep, only_use: bool = False):
             return "ANCESTOR"
         if "self.parent" in src:
             return "HOST"
-        if src in ("procs", "absints", "types", "variables"):
+        if src in use_names:
             return "USE"
         return "LOCAL"
+
+    # the names that hold what a USE statement imported: targets of `... = <module>.get_used_entities(...)`
+    use_names: Set[str] = set()
+    for n in ast.walk(fn):
+        if isinstance(n, ast.Assign) and isinstance(n.value, ast.Call) and isinstance(n.value.func, ast.Attribute) and \
+                n.value.func.attr == "get_used_entities":
+            for t in n.targets:
+                use_names |= {x.id for x in ast.walk(t) if isinstance(x, ast.Name)}
+    if not use_names:
+        raise AnalysisError("FortranCodeUnit.correlate: the result of get_used_entities is not bound to names")
 
     for n in ast.walk(fn):
         # self.T.update(X)
@@ -124,12 +134,17 @@ def r2_innermost_wins(ctx, rep, only_use: bool = False):
                     src = ast.unparse(n.iter)
                     kind = "HOST" if "self.parent" in src else "LOCAL"
                     events[s.targets[0].value.attr].append((n.lineno, kind, f"for ... in {src}: {ast.unparse(s)[:50]}"))
-        if isinstance(n, ast.If) and "retvar := getattr(self.parent" in ast.unparse(n.test):
+        if isinstance(n, ast.If) and any(
+                (isinstance(x, ast.Call) and call_name(x) == "getattr" and len(x.args) >= 2 and ast.unparse(x.args[0]) == "self.parent"
+                 and isinstance(x.args[1], ast.Constant) and x.args[1].value == "retvar")
+                or (isinstance(x, ast.Attribute) and x.attr == "retvar" and ast.unparse(x.value) == "self.parent") for x in ast.walk(n.test)):
             events["all_vars"].append((n.lineno, "HOST", "parent's result variable"))
-    # all_procs LOCAL write happens in _cleanup (before correlate)
+    # tables that are first filled in _cleanup (before correlate): an assignment there from the unit's own lists is LOCAL
     cl = py.func("FortranCodeUnit._cleanup")
-    if "self.all_procs = {p.name.lower(): p for p in self.routines}" in ast.unparse(cl):
-        events["all_procs"].append((0, "LOCAL", "_cleanup: self.all_procs = {routines}"))
+    for n in ast.walk(cl):
+        if isinstance(n, ast.Assign) and isinstance(n.targets[0], ast.Attribute) and n.targets[0].attr in TABLES and \
+                ast.unparse(n.targets[0].value) == "self" and classify(ast.unparse(n.value)) == "LOCAL":
+            events[n.targets[0].attr].append((0, "LOCAL", f"_cleanup: {ast.unparse(n)[:60]}"))
     for t in TABLES:
         ev = sorted(events[t])
         if not ev:
@@ -299,12 +314,20 @@ def r6_block_scope(ctx, rep):
                f"the {name} arm no longer tests `blocklevel == 0` (its sibling declaration arms do): an entity declared "
                f"inside a BLOCK construct is registered in the enclosing procedure and shadows the host-associated "
                f"entity of the same name there", py.nloc(a.test))
+    def steps(arm, op, need_block_test):
+        out = []
+        for ev in astq.trace_block(arm.body, cs.fn):
+            n = ev.node
+            if ev.kind == "assign" and isinstance(n, ast.AugAssign) and isinstance(n.target, ast.Name) and n.target.id == "blocklevel" \
+                    and isinstance(n.op, op) and isinstance(n.value, ast.Constant) and n.value.value == 1:
+                if not need_block_test or any("'block'" in c and not c.startswith("not") for c in ev.cond_texts_x(cs.fn)):
+                    out.append(ev)
+        return out
     b = cs.arm_by_regex("BLOCK_RE")
-    ok = "blocklevel" in b.writes and "blocklevel += 1" in ast.unparse(ast.Module(body=b.body, type_ignores=[]))
+    ok = "blocklevel" in b.writes and bool(steps(b, ast.Add, False))
     rep.ob("BLOCK opens a nesting level", ok, "", py.nloc(b.test))
     e = cs.arm_by_regex("END_RE")
-    t = ast.unparse(ast.Module(body=e.body, type_ignores=[]))
-    ok = re.search(r"if endtype and endtype\.lower\(\) == 'block':\s+blocklevel -= 1", t) is not None
+    ok = bool(steps(e, ast.Sub, True))
     rep.ob("END BLOCK closes a nesting level", ok, "", py.nloc(e.test))
     init = [s for s in cs.fn.body if isinstance(s, ast.Assign) and ast.unparse(s.targets[0]) == "blocklevel"]
     ok = len(init) == 1 and ast.unparse(init[0].value) == "0"
